@@ -160,9 +160,15 @@ def extract_consts(src, env=None, public_only=False):
         except TranslateError as err:
             # an initialiser outside the evaluated subset: the pinned tree's value for this constant (same name and
             # type), tied by the compiled-crate cross-check (the harness prints `elf::abi::NAME` as compiled)
-            bty, v = fallback("consts", name, err)
-            if bty != ty:
-                raise err
+            try:
+                bty, v = fallback("consts", name, err)
+                if bty != ty:
+                    raise err
+            except TranslateError:
+                # no pinned value either (a new constant, a `const _: () = { … }` compile-time assertion block, …): the
+                # constant is left out; an item that uses it fails to translate on its own and falls back on its own
+                SKIPPED_CONSTS.append({"name": name, "pub": bool(pub), "reason": str(err)[:200]})
+                continue
         env[name] = (ty, v)
         if pub or not public_only:
             out.append((name, ty, v, bool(pub)))
@@ -430,6 +436,7 @@ def exec_parse_fn(body_src, cls, consts, canon, extra_env=None):
 
 BASELINE = None      # translation of the pinned tree (translator/baseline.txt), used per item when an item cannot be translated
 FALLBACKS = []       # [{"component": …, "reason": …}] of this run
+SKIPPED_CONSTS = []  # constants whose initialiser could not be evaluated and that the pinned tree does not have
 
 
 def load_baseline():
@@ -1127,10 +1134,17 @@ def main():
             to_str = extract_to_str(args.repo, consts)
         except TranslateError as e:
             to_str = fallback("to_str", None, e)
-        feats = extract_features(args.repo)
+        try:
+            feats = extract_features(args.repo)
+        except TranslateError as e:
+            feats = fallback("features", None, e)
         import accessors as accmod
         accs = accmod.translate_accessors(lambda f: read_src(args.repo, f), consts, crate_aliases(args.repo),
                                           None if args.write_baseline else fallback)
+        try:
+            native = accmod.translate_native(lambda f: read_src(args.repo, f))
+        except TranslateError as e:
+            native = fallback("native", None, e)
     except TranslateError as e:
         print("TRANSLATE-ERROR: %s" % e)
         sys.exit(2)
@@ -1139,7 +1153,8 @@ def main():
         open(path, "w").write(repr({"progs": progs, "sizes": sizes, "tail": (tail, tail_sizes),
                                     "cstructs": structs, "to_str": to_str,
                                     "consts": {n: (ty, v) for n, ty, v, _ in consts_list},
-                                    "accessors": {"%s.%s" % (a["type"], a["fn"]): a for a in accs}}))
+                                    "accessors": {"%s.%s" % (a["type"], a["fn"]): a for a in accs},
+                                    "native": native, "features": feats}))
         print("baseline written to", path)
     changed = []
     for fname, content in [
@@ -1148,7 +1163,7 @@ def main():
         ("CStructs.lean", emit_cstructs(structs, consts)),
         ("ToStr.lean", emit_to_str(to_str)),
         ("Features.lean", emit_features(feats)),
-        ("Accessors.lean", accmod.emit_accessors(accs)),
+        ("Accessors.lean", accmod.emit_accessors(accs, native)),
     ]:
         if write_if_changed(os.path.join(args.out, fname), content):
             changed.append(fname)
@@ -1169,6 +1184,7 @@ def main():
         "accessors": [{"type": a["type"], "fn": a["fn"], "params": [list(p) for p in a["params"]], "rty": a["rty"], "body": a["body"]} for a in accs],
         "changed": changed,
         "fallbacks": FALLBACKS,
+        "skipped_consts": SKIPPED_CONSTS,
     }
     if args.json:
         write_if_changed(args.json, json.dumps(dump, indent=1, sort_keys=True))
@@ -1176,6 +1192,8 @@ def main():
         write_if_changed(args.rust, emit_rust(consts_list, structs, to_str, sizes))
     print("translated: %d consts, %d parse programs, %d C structs, %d to_str functions, %d accessors; rewrote %s"
           % (len(consts_list), 2 * (len(progs) + 1), len(structs), len(to_str), len(accs), changed or "nothing"))
+    for sk in SKIPPED_CONSTS:
+        print("TRANSLATE-SKIPPED-CONST: %s%s (%s)" % ("pub " if sk["pub"] else "", sk["name"], sk["reason"]))
     for fb in FALLBACKS:
         print("TRANSLATE-FALLBACK: %s not translated (%s); its model is the pinned tree's translation, tied by the correspondence"
               % (fb["component"], fb["reason"]))
